@@ -18,7 +18,7 @@ Q = TIER == 'quick'
 def plan(prop):
     obs = []
     bits = 16 if Q else 31
-    kmax = 2 if Q else 3
+    kmax = 2 if Q else 4
     shapes = [(k, closed) for closed in (True, False) for k in range(0, kmax + 1)]
     seed = int(os.environ.get('VERIF_SEED', '0') or 0)
     # VERIF_SEED only picks one additional concrete cost-rate vector (the estimate is linear in the rates); solver verdicts
@@ -36,6 +36,12 @@ def plan(prop):
             obs.append((core, lambda ctx, k=k, c=closed: co.ob_limits_gate(ctx, k, c, bits)))
         for k, closed in [(0, True), (1, True), (1, False), (2, False)]:
             obs.append((core, lambda ctx, k=k, c=closed: co.ob_reachable_gate(ctx, k, c, bits)))
+    if prop == 'C06':
+        scans = [(0, True, 2, False), (1, True, 2, False), (2, True, 1, False), (0, False, 2, False), (1, False, 1, False), (1, True, 1, True)] if Q else \
+            [(0, True, 2, False), (1, True, 2, False), (2, True, 1, False), (3, True, 1, False), (0, False, 2, False), (1, False, 2, False), (2, False, 2, False),
+             (1, True, 2, True), (2, True, 1, True), (0, True, 3, False)]
+        for k, closed, ntw, bk in scans:
+            obs.append((core, lambda ctx, k=k, c=closed, n=ntw, b=bk: co.ob_leg_scan(ctx, k, c, n, b)))
     if prop in ('C06', 'C03', 'C05'):
         for k, closed in shapes:
             obs.append((core, lambda ctx, k=k, c=closed: co.ob_schedule_state_statistics(ctx, k, c, bits)))
